@@ -190,7 +190,8 @@ def perturb(draw, base, nmoves):
 
 
 SHAPES = ["complete", "incomplete", "sparse_block", "near_unanimous", "identical", "near_unanimous_incomplete",
-          "cyclic", "cyclic_incomplete", "block_cyclic"]
+          "cyclic", "cyclic_incomplete", "block_cyclic", "cyclic_ties", "mixture"]
+BASE_SHAPES = SHAPES[:9]
 
 
 @st.composite
@@ -241,6 +242,33 @@ def datasets(draw, max_n=7, max_m=5, min_n=1, shapes=None, kinds=None, allow_emp
                 r = [[e for e in b if e not in gone] for b in r]
                 r = [b for b in r if b]
             rankings.append(r)
+    elif shape == "cyclic_ties":
+        # a Condorcet cycle plus rankings that tie (blocks of) the same elements: inside the component every strict
+        # order loses to some tie although no pair alone prefers the tie strictly - the case where an exact algorithm
+        # must really weigh ties against orders
+        base = list(draw(st.permutations(names)))
+        step = draw(st.sampled_from([1, 1, 2]))
+        for k in range(max(2, min(m, 4))):
+            sh = (k * step) % n
+            rankings.append([[e] for e in base[sh:] + base[:sh]])
+        for _ in range(draw(st.integers(1, 3))):
+            tied = draw(weak_order_of(names))
+            tied = draw(perturb(tied, 0))
+            # merge most buckets
+            while len(tied) > 1 and draw(st.integers(0, 3)) > 0:
+                i = draw(st.integers(0, len(tied) - 2))
+                tied[i] = tied[i] + tied[i + 1]
+                del tied[i + 1]
+            rankings.append(tied)
+    elif shape == "mixture":
+        # rankings of two different shapes over the same names
+        for sub in (draw(st.sampled_from(BASE_SHAPES)), draw(st.sampled_from(BASE_SHAPES))):
+            part = draw(datasets(max_n=n, max_m=max(1, max_m // 2), min_n=n, shapes=[sub], kinds=(kind,),
+                                 allow_empty_rankings=False, allow_duplicates=False))
+            # same size => element_names drew a permutation of the same pool prefix? not necessarily: rename
+            pu = sorted({e for r in part["rankings"] for b in r for e in b}, key=lambda v: (str(type(v)), v))
+            ren = {e: names[i % n] for i, e in enumerate(pu)}
+            rankings.extend([[[ren[e] for e in b] for b in r] for r in part["rankings"]])
     elif shape == "block_cyclic":
         # 2-3 blocks in a common order; inside a block every ranking uses a rotation (cycle); a ranking may skip whole
         # blocks: several components, some of them hard, and rankings that miss a whole component
